@@ -25,6 +25,19 @@ func init() {
 	specFuncs["numout"] = func(env *SpecEnv, a []*Value) *Value {
 		return &Value{T: tInt, L: []*Term{UF("rt_NumOut", SBV(64), a[0].One())}}
 	}
+	// struct fields of a reflect.Type as the engine models Type.Field(i): name, type, embedded flag
+	specFuncs["numfield"] = func(env *SpecEnv, a []*Value) *Value {
+		return &Value{T: tInt, L: []*Term{UF("rt_NumField", SBV(64), a[0].One())}}
+	}
+	specFuncs["fname"] = func(env *SpecEnv, a []*Value) *Value {
+		return &Value{T: tString, L: []*Term{UF("rt_Field_00", SStr, a[0].One(), coerceInt(a[1], tInt).One())}}
+	}
+	specFuncs["ftype"] = func(env *SpecEnv, a []*Value) *Value {
+		return &Value{T: env.e.W.reflectType(), L: []*Term{UF("rt_Field_02", SInt, a[0].One(), coerceInt(a[1], tInt).One())}}
+	}
+	specFuncs["fanon"] = func(env *SpecEnv, a []*Value) *Value {
+		return &Value{T: tBool, L: []*Term{UF("rt_Field_08", SBool, a[0].One(), coerceInt(a[1], tInt).One())}}
+	}
 	specFuncs["assignable"] = func(env *SpecEnv, a []*Value) *Value {
 		return &Value{T: tBool, L: []*Term{UF("rt_AssignableTo_00", SBool, a[0].One(), a[1].One())}}
 	}
